@@ -64,6 +64,39 @@ func c14r1(c *an.Ctx) {
 				return
 			}
 			obj := an.CalleeObj(call.Common())
+			if obj != nil && obj.FullName() == "net/http.MaxBytesReader" {
+				// the standard library's limiter: a read past the limit fails with *http.MaxBytesError instead of
+				// ending the stream, so nothing is truncated as long as the read's error is looked at
+				n++
+				N, isC := an.ConstInt(call.Common().Args[2])
+				c.Check(isC && N == maxSize, an.ShortFunc(fn)+" | MaxBytesReader limit is maxSize", c.At(in), "", "the request body limit differs from maxSize")
+				used := false
+				var follow func(v ssa.Value, depth int)
+				follow = func(v ssa.Value, depth int) {
+					if v == nil || v.Referrers() == nil || depth > 4 {
+						return
+					}
+					for _, r := range *v.Referrers() {
+						switch x := r.(type) {
+						case *ssa.Call:
+							if o := an.CalleeObj(x.Common()); o != nil && o.FullName() == "io.ReadAll" {
+								for _, r2 := range *x.Referrers() {
+									if ex, isEx := r2.(*ssa.Extract); isEx && ex.Index == 1 && ex.Referrers() != nil && len(*ex.Referrers()) > 0 {
+										used = true
+									}
+								}
+							}
+						case *ssa.MakeInterface:
+							follow(x, depth+1)
+						case *ssa.ChangeInterface:
+							follow(x, depth+1)
+						}
+					}
+				}
+				follow(call, 0)
+				c.Check(used, an.ShortFunc(fn)+" | the limited read's error is examined", c.At(in), "", "the error of the read through http.MaxBytesReader is dropped: an oversize body is cut at the limit and accepted")
+				return
+			}
 			if obj == nil || obj.FullName() != "io.LimitReader" {
 				return
 			}
